@@ -73,6 +73,11 @@ def run_verus_units(units, names, obligations, assumptions, meta):
             continue
         vac_names = set()
         for fn in r.contracted:
+            if fn in r.lost:
+                obligations.append(Obligation("V:%s:%s:%s" % (n, fn, prof), "verus", fn, "undecided",
+                                              {"reason": "function could not be brought before the verifier (%s); it is assumed by its contract in the rest of the unit" % r.lost[fn][:300]},
+                                              0, "unbounded"))
+                continue
             fr = r.fns.get(fn)
             ok = fr is not None and fr.ok
             obligations.append(Obligation("V:%s:%s:%s" % (n, fn, prof), "verus", fn,
@@ -81,6 +86,8 @@ def run_verus_units(units, names, obligations, assumptions, meta):
             vac_names.add("vf_vac_" + fn)
         if vac:
             for fn in r.contracted:
+                if fn in r.lost:
+                    continue
                 fr = r.fns.get("vf_vac_" + fn)
                 refuted = fr is not None and fr.ok is False
                 obligations.append(Obligation("VAC:%s:%s" % (n, fn), "verus", "vacuity guard of " + fn,
